@@ -374,3 +374,112 @@ pub fn grammar(t: &mut Tape, depth: usize) -> Node {
         }
     }
 }
+
+/// Re-encodes a tree with non-canonical but equivalent encoding choices drawn from the tape:
+/// wider heads, indefinite arrays / maps, rotated map entries, chunked byte strings, stripped set tags.
+/// `intensity` (0..=255) is the per-node probability numerator of each kind of change.
+pub struct NonCanon {
+    pub widen: u32,
+    pub indef: u32,
+    pub rotate_maps: u32,
+    pub chunk: u32,
+    pub strip_set_tags: bool,
+    pub features: Vec<&'static str>,
+}
+
+impl NonCanon {
+    pub fn from_tape(t: &mut Tape) -> NonCanon {
+        let level = t.choose(5) as u32; // 0 = canonical
+        let p = [0u32, 6, 20, 60, 140][level as usize];
+        NonCanon {
+            widen: if t.bool() { p } else { 0 },
+            indef: if t.bool() { p } else { 0 },
+            rotate_maps: if t.bool() { p } else { 0 },
+            chunk: if t.chance(60) { p / 4 } else { 0 },
+            strip_set_tags: t.chance(60),
+            features: Vec::new(),
+        }
+    }
+    fn note(&mut self, f: &'static str) {
+        if !self.features.contains(&f) {
+            self.features.push(f);
+        }
+    }
+    pub fn apply(&mut self, n: &mut Node, t: &mut Tape) {
+        // strip tag 258
+        if self.strip_set_tags {
+            if let Kind::Tag(258, inner) = &n.kind {
+                let inner = (**inner).clone();
+                *n = inner;
+                self.note("untagged-set");
+            }
+        }
+        let arg = match &n.kind {
+            Kind::UInt(v) | Kind::NInt(v) => Some(*v),
+            Kind::Bytes { data, chunks: None } | Kind::Text { data, chunks: None } => Some(data.len() as u64),
+            Kind::Array { items, indef: false } => Some(items.len() as u64),
+            Kind::Map { entries, indef: false } => Some(entries.len() as u64),
+            Kind::Tag(tg, _) => Some(*tg),
+            _ => None,
+        };
+        if let Some(a) = arg {
+            if self.widen > 0 && t.chance(self.widen) {
+                let min = cbor::min_width(a);
+                let opts: Vec<u8> = [1u8, 2, 4, 8].iter().cloned().filter(|w| *w > min).collect();
+                if !opts.is_empty() {
+                    n.width = opts[t.choose(opts.len())];
+                    self.note("non-minimal-head");
+                }
+            }
+        }
+        match &mut n.kind {
+            Kind::Array { items, indef } => {
+                if self.indef > 0 && t.chance(self.indef) {
+                    *indef = !*indef;
+                    self.note(if *indef { "indefinite-array" } else { "definite-array" });
+                }
+                for x in items.iter_mut() {
+                    self.apply(x, t);
+                }
+            }
+            Kind::Map { entries, indef } => {
+                if self.indef > 0 && t.chance(self.indef) {
+                    *indef = !*indef;
+                    self.note("indefinite-map");
+                }
+                if self.rotate_maps > 0 && entries.len() >= 2 && t.chance(self.rotate_maps) {
+                    let k = 1 + t.choose(entries.len() - 1);
+                    entries.rotate_left(k);
+                    self.note("unsorted-map-keys");
+                }
+                for (k, v) in entries.iter_mut() {
+                    self.apply(k, t);
+                    self.apply(v, t);
+                }
+            }
+            Kind::Tag(_, inner) => self.apply(inner, t),
+            Kind::Bytes { data, chunks } => {
+                if self.chunk > 0 && t.chance(self.chunk) {
+                    if chunks.is_some() {
+                        // different chunking of an already chunked string
+                        let c = [1usize, 32, 63, 65, 100][t.choose(5)];
+                        let mut cs = Vec::new();
+                        let mut rem = data.len();
+                        while rem > 0 {
+                            let l = c.min(rem);
+                            cs.push((l, 0));
+                            rem -= l;
+                        }
+                        *chunks = Some(cs);
+                        self.note("odd-chunk-sizes");
+                    } else if !data.is_empty() {
+                        let half = data.len() / 2;
+                        *chunks = Some(vec![(half, 0), (data.len() - half, 0)]);
+                        self.note("chunked-bytes");
+                    }
+                }
+            }
+            _ => {}
+        }
+    }
+}
